@@ -80,6 +80,24 @@ def dump(a, attrs=True):
     return ast.dump(a, include_attributes=attrs)
 
 
+def sdump(a):
+    """structure dump, positions ignored, docstring-like strings (multi-line str Constants that are the whole value
+    of an Expr statement) compared up to the documented re-indentation of their continuation lines"""
+    if a is None:
+        return None
+    patched = []
+    for n in ast.walk(a):
+        if isinstance(n, ast.Expr) and isinstance(n.value, ast.Constant) and isinstance(n.value.value, str) \
+                and '\n' in n.value.value:
+            patched.append((n.value, n.value.value))
+            n.value.value = '\n'.join(x.lstrip() for x in n.value.value.split('\n'))
+    try:
+        return ast.dump(a)
+    finally:
+        for c, v in patched:
+            c.value = v
+
+
 def node_paths(root):
     """[(path, node)] for every node, in walk order; path is a tuple of (field, idx)"""
     out = []
